@@ -13,9 +13,9 @@ NA == Len(Alpha)
 RECURSIVE StrOf(_)
 StrOf(k) == IF k = 0 THEN <<>> ELSE StrOf((k - 1) \div NA) \o <<Alpha[((k - 1) % NA) + 1]>>
 
-Case(cps) ==
+Lite(cps) ==
     LET n == Len(cps)  nb == NBytes(cps) IN
-    [cps |-> cps, bytes |-> EncAll(cps), laws |-> IF Laws(cps) THEN 1 ELSE 0,
+    [cps |-> cps, bytes |-> EncAll(cps),
      slen |-> n,
      len  |-> [k \in 1..n |-> Len(Enc(cps[k]))],
      code |-> cps,
@@ -25,11 +25,13 @@ Case(cps) ==
      prev |-> [k \in 1..n + 1 |-> PrevRef(cps, k - 1)],
      beg  |-> [j \in 1..nb |-> StartOf(cps, CharAt(cps, j - 1))],
      end  |-> [j \in 1..nb |-> StartOf(cps, CharAt(cps, j - 1) + 1) - 1],
-     chop |-> [k \in 1..n + 1 |-> StartOf(cps, k - 1)],
-     sub  |-> [a \in 1..n + 1 |-> [z \in 1..n + 1 |-> IF a <= z THEN SubRef(cps, a - 1, z - 1) ELSE <<>>]]]
-
+     chop |-> [k \in 1..n + 1 |-> StartOf(cps, k - 1)]]
+Case(cps) ==
+    LET n == Len(cps) IN
+    Lite(cps) @@ [laws |-> IF Laws(cps) THEN 1 ELSE 0,
+                  sub  |-> [a \in 1..n + 1 |-> [z \in 1..n + 1 |-> IF a <= z THEN SubRef(cps, a - 1, z - 1) ELSE <<>>]]]
 (* longer strings: the same fields without the quadratic tables *)
-CaseLite(cps) == [f \in {"cps", "bytes", "slen", "len", "code", "chr", "off", "next", "prev", "beg", "end", "chop"} |-> Case(cps)[f]]
+CaseLite(cps) == Lite(cps)
 
 Mode == Env("MODE", "str")
 Lo == EnvN("LO", 0)
